@@ -203,11 +203,21 @@ def main():
     checker_cmds = []
     undecided = []
     other_failures = []
+    stability = []
+    selftest_res = None
 
     # ------------------------------------------------------------------ Verus units
     for uname in P['verus']:
         try:
             U = run_verus_unit(uname, seed, args.tier)
+            if args.tier == 'thorough':
+                # stability: the same unit under a second solver seed must give the same set of failures
+                U2 = run_verus_unit(uname, seed + 1, args.tier)
+                f1 = sorted((f['function'], f['kind'], f['clause_line']) for f in U['cl']['failures'] if not f['canary'])
+                f2 = sorted((f['function'], f['kind'], f['clause_line']) for f in U2['cl']['failures'] if not f['canary'])
+                stability.append(dict(unit=uname, seeds=[seed, seed + 1], agree=(f1 == f2)))
+                if f1 != f2:
+                    undecided.append('unit %s: verdict differs between solver seeds %d and %d (unstable proof): undecided' % (uname, seed, seed + 1))
         except Undecided as e:
             undecided.append(str(e))
             continue
@@ -346,6 +356,17 @@ def main():
         except native_run.NativeUndecided as e:
             undecided.append(str(e))
 
+    # ------------------------------------------------------------------ thorough: self-test of extraction + contracts
+    if args.tier == 'thorough' and P['verus'] and not violations:
+        try:
+            from vx import selftest
+            st = selftest.run(pid, repo=REPO)
+            selftest_res = dict(mutants=len(st), detected=sum(1 for r in st if r['detected']),
+                                not_detected=[dict(mutant=r['mutant'], undecided=r.get('undecided'), note=r.get('note')) for r in st if not r['detected']],
+                                what='hand-written property-breaking edits and stored seeded patches replayed through extraction + Verus on a scratch copy; informational, never part of the verdict')
+        except Exception as e:  # never let the self-test decide anything
+            selftest_res = dict(error=str(e)[:300])
+
     wall = time.time() - t0
     # ------------------------------------------------------------------ evidence
     trusted_dedup = []
@@ -370,6 +391,8 @@ def main():
             undecided=undecided,
             failing_obligations_of_other_properties_in_shared_units=other_failures,
             not_covered=P.get('not_covered', ''),
+            solver_seed_stability=stability,
+            selftest=selftest_res,
             explanation='obligations = tagged ensures/invariant clauses + hint asserts + one body-safety obligation (callee preconditions, overflow, unwrap) per contracted function, plus CBMC checks of the Kani harnesses; counted from the generated text on this run',
         ),
         assumptions=['%s: %s' % (a, props.ASSUMPTIONS[a]) for a in P['assumptions']],
